@@ -1,5 +1,5 @@
 //! C01 — SELECT answers equal the SPARQL algebra.  Protocol: lean/Kolibrie/Driver/C01.lean
-use super::c02::{gen_group, gen_spec, pat_vars};
+use super::c02::{gen_group, gen_spec, gen_triple, pat_vars};
 use super::{Prop, Stats, Tier};
 use crate::engine_common::*;
 use crate::proto::hex;
@@ -129,7 +129,44 @@ impl Prop for C01 {
             let second = if rng.chance(1, 2) { (Term::Var(1), p1, Term::Var(2)) } else { (Term::Var(0), p1, Term::Var(2)) };
             pat = Pat::Group(vec![Pat::Bgp(vec![(Term::Var(0), p0, Term::Var(1)), second])]);
         }
-        let prebound = !big && rng.chance(1, 12);
+        let merged = !big && u.graphs.len() >= 2 && rng.chance(1, 14);
+        let mut db = db;
+        if merged {
+            // the query default graph is the merge of several FROM graphs that share triples; the patterns are probed with
+            // some, all or none of their positions already bound (the same triple pattern twice, its mirror image, a
+            // ground pattern): a shared triple is one solution, however the scan is keyed
+            stats.hit("merged_default_graph_with_shared_triples");
+            let gs = u.graphs.clone();
+            let mut extra = Vec::new();
+            for (s_, p_, o_, g_) in db.quads.iter() {
+                if rng.chance(2, 3) {
+                    let tgt = rng.pick(&gs).clone();
+                    if g_.as_ref() != Some(&tgt) {
+                        extra.push((s_.clone(), p_.clone(), o_.clone(), Some(tgt)));
+                    }
+                }
+            }
+            db.quads.extend(extra);
+            db.quads.sort();
+            db.quads.dedup();
+            u.seeds = db.quads.iter().map(|(a, b, c, _)| (a.clone(), b.clone(), c.clone())).collect();
+            if !u.seeds.is_empty() {
+                let (s0, p0, o0) = rng.pick(&u.seeds).clone();
+                let t = match rng.below(3) {
+                    0 => (Term::Var(0), Term::Const(p0.clone()), Term::Var(1)),
+                    1 => (Term::Const(s0.clone()), Term::Var(2), Term::Var(1)),
+                    _ => (Term::Var(0), Term::Var(2), Term::Const(o0.clone())),
+                };
+                let second = match rng.below(4) {
+                    0 => t.clone(),
+                    1 if !matches!(&t.2, Term::Const(c) if !c.contains(':')) => (t.2.clone(), t.1.clone(), t.0.clone()),
+                    2 => (Term::Const(s0), Term::Const(p0), Term::Const(o0)),
+                    _ => gen_triple(rng, &u, nvars),
+                };
+                pat = Pat::Group(vec![Pat::Bgp(vec![t, second])]);
+            }
+        }
+        let prebound = !big && !merged && rng.chance(1, 12);
         if prebound {
             // GRAPH ?g whose variable is already bound (by VALUES or by a triple pattern) when the GRAPH block is reached:
             // graphs that are stored but hidden by the dataset clause, and names of graphs that do not exist, must not match
@@ -160,7 +197,16 @@ impl Prop for C01 {
             spec.order.retain(|(v, _)| outs.contains(v));
         }
         let (mut from, mut from_named) = (vec![], vec![]);
-        if rng.chance(1, 4) || (prebound && rng.chance(3, 4)) {
+        if merged {
+            from = u.graphs.clone();
+            if rng.chance(1, 3) {
+                from.remove(0);
+            }
+            if from.len() < 2 {
+                from = u.graphs.clone();
+            }
+            stats.hit("dataset_clause");
+        } else if rng.chance(1, 4) || (prebound && rng.chance(3, 4)) {
             for g in &u.graphs {
                 if rng.chance(1, 2) {
                     from.push(g.clone());
